@@ -102,6 +102,10 @@ func untilsFor(n int) []untilSpec {
 	return us
 }
 
+// pairFilters4 enables the edge-pair filters on graphs with 4 and more nodes
+// (thorough tier; set by the generators).
+var pairFilters4 bool
+
 // traverseChecks runs BreadthFirst and DepthFirst from every start node under
 // every filter and until predicate (extended predicates under the ext filters).
 func traverseChecks(c *chk, b *built) {
@@ -111,7 +115,7 @@ func traverseChecks(c *chk, b *built) {
 	// edge-pair filters on the harness's own graph type only.
 	_, ordD := b.g.(ordDirected)
 	_, ordU := b.g.(ordUndirected)
-	for _, f := range filtersFor(s, ordD || ordU) {
+	for _, f := range filtersFor(s, (ordD || ordU) && (s.n <= 3 || pairFilters4)) {
 		f := f
 		allowed := func(u, v int) bool { return f.forbid>>arcIndex(u, v)&1 == 0 }
 		var trav func(graph.Edge) bool
@@ -486,6 +490,7 @@ func walkAllChecks(c *chk, b *built, comps []uint8) {
 }
 
 func genDirTraverse(g *vlib.G) {
+	pairFilters4 = g.Thorough()
 	forDirected(g, 4, func(key string, s gspec) {
 		g.Case(key, func(t *vlib.T) {
 			s := s
@@ -513,6 +518,7 @@ func genDirTraverse(g *vlib.G) {
 }
 
 func genUndTraverse(g *vlib.G) {
+	pairFilters4 = g.Thorough()
 	forUndirected(g, undMax(g), func(key string, s gspec) {
 		g.Case(key, func(t *vlib.T) {
 			s := s
